@@ -71,6 +71,7 @@ func opReplay() error {
 		return err
 	}
 	rp.Level = int(envInt("VERIF_LEVEL", 1))
+	rp.Notify = os.Getenv("VERIF_NOTIFY") == "1"
 	journal, _ := os.Create(os.Getenv("VERIF_OUT") + ".journal")
 	t0 := time.Now()
 	res := Result{DevUsed: map[string]int{}}
